@@ -102,8 +102,44 @@ def _role(rng, vals):
     return ops
 
 
+def _race3(rng, vals):
+    """eraser / short-lived releaser / paused reader: the reclamation window (DESIGN C05 'Fires on')"""
+    npre = rng.range(2, 4)
+    pre = [[LOCKW]] + [[PUSHB, vals.fresh()] for _ in range(npre)] + [[RELEASE]]
+    a = rng.range(0, npre - 1)
+    eraser = [[LOCKW], [BEGIN, 0]] + [[NEXT, 0]] * a + [[ERASE, 0], [RELEASE]]
+    if rng.chance(1, 3):
+        eraser += [[LOCKR], [BEGIN, 0], [RELEASE]]
+    short = []
+    for _ in range(rng.range(1, 2)):
+        short += [[LOCKR], [BEGIN, 0], [RELEASE]]
+    b = rng.range(0, npre - 1)
+    reader = [[LOCKR], [BEGIN, 0]] + [[NEXT, 0]] * b + [[DEREF, 0], [NEXT, 0], [DEREF, 0], [NEXT, 0], [ISEND, 0], [RELEASE]]
+    progs = [pre + eraser, short, reader]
+    sched = [(0, 0)] * (npre * 9 + 14)                     # the initial list
+    order = rng.below(4)
+    k0 = rng.range(0, 10 + 2 * a + 13)                      # the eraser stops somewhere up to the end of its erase
+    r0 = rng.range(0, 8 + 2 * b + 2)                        # the reader registers and walks to its element
+    if order == 0:
+        sched += [(0, 0)] * k0 + [(2, 0)] * r0
+    elif order == 1:
+        sched += [(2, 0)] * r0 + [(0, 0)] * k0
+    elif order == 2:
+        sched += [(1, 0)] * rng.range(0, 9) + [(0, 0)] * k0 + [(2, 0)] * r0
+    else:
+        # the eraser is parked inside erase; a short-lived handle registers, then the reader registers and walks;
+        # the eraser finishes and releases, the short-lived handle releases (reclaims), the reader goes on
+        sched += [(0, 0)] * k0 + [(1, 0)] * rng.range(7, 9) + [(2, 0)] * r0 + [(0, 0)] * rng.range(10, 40) + [(1, 0)] * rng.range(5, 40)
+    for _ in range(rng.range(2, 7)):
+        t = rng.weighted([(3, 0), (4, 1), (2, 2)])
+        sched += [(t, rng.weighted(list(CW)))] * rng.range(3, 34)
+    return {'cfg': [0], 'progs': progs, 'sched': sched}
+
+
 def gen(rng, tier, spec):
     vals = _Vals()
+    if rng.chance(1, 2 if tier == 'search' else 7):
+        return _race3(rng, vals)
     nt = rng.weighted([(1, 1), (6, 2), (5, 3)])
     npre = rng.weighted([(1, 0), (2, 1), (3, 2), (3, 3), (2, 4)])
     pre = []
